@@ -87,9 +87,9 @@ def _wrapper(ctx):
     return params
 
 
-def _reverse(ctx, params):
+def _reverse(ctx, params, slices=(1, 2, 3)):
     T = integer_atom("T")
-    for k in (1, 2, 3):
+    for k in slices:
         label = f"reversible_fdtd[{k} slice{'s' if k > 1 else ''}]"
         d = Driver(ctx, Facts([T - max(k, 1)]))
         arr = d.arrays()
@@ -290,6 +290,12 @@ def _source_times(ctx, rule="R4.7"):
         inv_ok = all(i == "False" for _, _, i in tables[fwd]) and all(i == "True" for _, _, i in tables[rev])
         ctx.ob(rule, f"fdtd.update.{rev}:source-times", f_rows == r_rows and inv_ok and len(f_rows) == 2, f"every source.{fwd} call of the reverse update takes the time argument of the corresponding forward call (always-on and switched branch alike) with inverse=True", tables[rev], tables[fwd])
     ctx.require_count(f"{rule} source call sites", n, 8)
+
+
+def run_thorough(ctx):
+    """The custom-VJP structure for 4..7 slices."""
+    f = ctx.index.function(WRAP)
+    _reverse(ctx, [a.arg for a in f.node.args.args], slices=(4, 5, 6, 7))
 
 
 def run(ctx):
